@@ -162,7 +162,7 @@ func ruleC04_2(c *Ctx) {
 			return
 		}
 		replicaReturns++
-		gs := guardsAt(r.Block())
+		gs := guardsOf(r)
 		var missing []string
 		if !guardHas(gs, func(g Guard) bool { _, ok := fieldLoad(g.Cond, disable); return ok && !g.Truth }) {
 			missing = append(missing, "!DisableSlave")
@@ -405,9 +405,9 @@ func ruleC04_4(c *Ctx) {
 				continue
 			}
 			n++
-			c.touch(outermost(w.Fn))
+			c.touch(homeFn(w.Fn))
 			ok, why := keyIsHash(w.Fn, w.Key)
-			c.check(ok, "Msg."+f.Name()+" key in "+shortFn(outermost(w.Fn)), c.at(w.Instr), "slot = hashkit.Hash(key) (or the key of a map so keyed)",
+			c.check(ok, "Msg."+f.Name()+" key in "+shortFn(homeFn(w.Fn)), c.at(w.Instr), "slot = hashkit.Hash(key) (or the key of a map so keyed)",
 				"a fragment is filed under a slot that does not come from hashkit.Hash of a request key ("+why+"): it is routed to a node that does not own its keys")
 		}
 	}
@@ -487,7 +487,7 @@ func ruleC04_5(c *Ctx) {
 				}
 				nw++
 				okV := false
-				if call, ok := st.Val.(*ssa.Call); ok && staticCalleeName(&call.Call) == "fmt.Sprintf" && outermost(fn) == onBoot {
+				if call, ok := st.Val.(*ssa.Call); ok && staticCalleeName(&call.Call) == "fmt.Sprintf" && homeFn(fn) == onBoot {
 					els := varargElems(call.Call.Args[1])
 					if len(els) == 2 {
 						e0, e1 := expr(strip(els[0])), expr(strip(els[1]))
@@ -497,7 +497,7 @@ func ruleC04_5(c *Ctx) {
 						okV = false
 					}
 				}
-				c.check(okV, "authCmd assignment in "+shortFn(outermost(fn)), c.at(in), "Sprintf(AuthCmd, Itoa(len(Password)), Password) in OnBoot",
+				c.check(okV, "authCmd assignment in "+shortFn(homeFn(fn)), c.at(in), "Sprintf(AuthCmd, Itoa(len(Password)), Password) in OnBoot",
 					"the AUTH command is not built as AuthCmd(len(password), password) in OnBoot: the length prefix and the password disagree or it is set elsewhere")
 			})
 		}
@@ -655,7 +655,7 @@ func ruleC04_5(c *Ctx) {
 	if f := p.Field(pkgCore, "Pool", "isSlave"); f != nil {
 		release := p.Method(pkgCore, "Pool", "Release")
 		for _, w := range p.fieldWrites(f) {
-			encl := outermost(w.Fn)
+			encl := homeFn(w.Fn)
 			name := "Pool.isSlave write in " + shortFn(encl)
 			switch encl.Name() {
 			case "newPool":
@@ -694,7 +694,7 @@ func ruleC04_6(c *Ctx) {
 		n++
 		call, ok := p.isCallTo(strip(w.Val), newPool)
 		okK := ok && expr(strip(call.Call.Args[1])) == expr(strip(w.Key))
-		c.check(okK, "ProxyPool registration in "+shortFn(outermost(w.Fn)), c.at(w.Instr), "ProxyPool[a] = newPool(a, …)",
+		c.check(okK, "ProxyPool registration in "+shortFn(homeFn(w.Fn)), c.at(w.Instr), "ProxyPool[a] = newPool(a, …)",
 			"a pool is registered under a key that differs from the address it dials: requests routed to one node are sent to another")
 	}
 	c.examined(n)
@@ -704,7 +704,7 @@ func ruleC04_6(c *Ctx) {
 	// newPool stores its addr parameter; dial uses p.Addr
 	addr := p.Field(pkgCore, "Pool", "Addr")
 	for _, w := range p.fieldWrites(addr) {
-		if outermost(w.Fn) == newPool {
+		if homeFn(w.Fn) == newPool {
 			c.check(strip(w.Val) == ssa.Value(newPool.Params[1]), "newPool: Pool.Addr", c.at(w.Instr), "the addr parameter", "newPool records another address than the one it was given")
 		}
 	}
@@ -860,7 +860,7 @@ func ruleC20_3(c *Ctx) {
 					}
 				}
 				// and the pool presence test for the same node dominates
-				gs := guardsAt(st.Block())
+				gs := guardsOf(st)
 				present := guardHas(gs, func(g Guard) bool {
 					ex, ok := g.Cond.(*ssa.Extract)
 					if !ok || ex.Index != 1 || !g.Truth {
